@@ -94,8 +94,9 @@ CHECKS = {
                 'incl. merge->export pipelines with k >= 3 probes',
                 text='Exported values compared with independently computed physical quantities on '
                      'the C13 runs and on merge->export pipelines. Class B.', ref='4/C14'),
-    'C17': dict(engine='E4', technique='deterministic simulation: the simulator owns the random draw '
-                '(np.random.choice replaced by seeded and adversarial legal draws); constraint oracle',
+    'C17': dict(engine='E4+E2', technique='deterministic simulation: the simulator owns the random draw '
+                '(np.random.choice replaced by seeded and adversarial legal draws); constraint oracle; '
+                'model-level use checked in the dataset world under the chunk knob',
                 text='Selector scenarios (spikes on chunk bounds, strides not dividing the chunk '
                      'count, unknown clusters, subsets) under seeded and adversarial draw '
                      'strategies, each a legal outcome of the real draw.', ref='4/C17'),
@@ -172,7 +173,7 @@ def main():
             {'name': 'E1', 'path': 'sim/e1_readers.py', 'serves_properties': ['C01', 'C02', 'C03'],
              'kind_free_text': 'reader sessions over simulator-written recordings'},
             {'name': 'E2', 'path': 'sim/e2_dataset.py',
-             'serves_properties': ['C03', 'C04', 'C05', 'C06', 'C08', 'C09', 'C10'],
+             'serves_properties': ['C03', 'C04', 'C05', 'C06', 'C08', 'C09', 'C10', 'C17'],
              'kind_free_text': 'dataset world: sorter actor, load/curate/save/close/reload '
                                'histories, storage faults'},
             {'name': 'E3', 'path': 'sim/e3_pipeline.py',
